@@ -9,7 +9,7 @@ git -C /repo worktree add -q --detach "$WT" HEAD || exit 2
 trap 'git -C /repo worktree remove --force "$WT" >/dev/null 2>&1' EXIT
 cd "$WT" || exit 2
 PKGDIR=$(python3 -c "import json,sys; print(json.load(open('$SD/meta$I.json'))['demo_pkg_dir'])")
-RUN=$(python3 -c "import json,re; m=json.load(open('$SD/meta$I.json'))['demo_run']; r=re.search(r'-run\s+(\S+)',m); print(r.group(1) if r else 'Test')")
+RUN=$(python3 -c "import json,re; m=json.load(open('$SD/meta$I.json'))['demo_run']; r=re.search(r'-run\s+(\S+)',m); print(r.group(1).strip(chr(39)+chr(34)) if r else 'Test')")
 git apply "$SD/patch$I.diff" || { echo "CONFIRM: patch does not apply"; exit 1; }
 go build ./... || { echo "CONFIRM: build fails"; exit 1; }
 if [ $# -gt 0 ]; then
